@@ -55,3 +55,12 @@ mod ranger;
 pub use net::ALPN;
 
 pub use self::{heads::*, keys::*, sync::*, ticket::DocTicket};
+
+/// Verification harness bodies, compiled into the crate so that they can reach private items.
+///
+/// Only present with the `verif` cargo feature; the source lives outside of this repository.
+#[cfg(feature = "verif")]
+#[doc(hidden)]
+#[allow(missing_docs, missing_debug_implementations, dead_code, unused)]
+#[path = "/verif/kani/incrate/mod.rs"]
+pub mod verif_incrate;
